@@ -221,20 +221,33 @@ def _prepare_api_config(
             # Just needed to set name
             pass
 
+    # `apiVersion` is `version` or `group/version`; anything else would register
+    # a class that breaks every later lookup in kr8s' class registry.
+    if api_version.count("/") > 1:
+        return PermFail(
+            message=f"`spec.apiConfig.apiVersion` ('{api_version}') must be `version` or `group/version`"
+        )
+
     try:
-        resource_api = kr8s.objects.get_class(
-            version=api_version,
-            kind=kind,
-            _asyncio=True,
+        try:
+            resource_api = kr8s.objects.get_class(
+                version=api_version,
+                kind=kind,
+                _asyncio=True,
+            )
+        except KeyError:
+            resource_api = kr8s.objects.new_class(
+                version=api_version,
+                kind=kind,
+                plural=plural,
+                namespaced=namespaced,
+                asyncio=True,
+            )
+    except (ValueError, TypeError) as err:
+        return PermFail(
+            message=f"`spec.apiConfig` does not name a usable `apiVersion` / `kind` ({err})"
         )
-    except KeyError:
-        resource_api = kr8s.objects.new_class(
-            version=api_version,
-            kind=kind,
-            plural=plural,
-            namespaced=namespaced,
-            asyncio=True,
-        )
+
     return (resource_api, resource_id, owned, readonly, delete_if_exists)
 
 
